@@ -294,7 +294,7 @@ pub fn check_wrap(text: &str, cfg: &Cfg, mask: u32, cx: &mut Cx) {
     let mut nt = false;
     let o = cfg.opts();
     let d = || cfg.d();
-    let lines = match cx.guard(|| wrap(text, &o)) {
+    let lines = match cx.guard(|| cfg.wrap(text, &o)) {
         Some(l) => l,
         None => return, // reported by guard as "subject-panicked"
     };
@@ -315,7 +315,7 @@ pub fn check_wrap(text: &str, cfg: &Cfg, mask: u32, cx: &mut Cx) {
 
     // ---- C09 (a): fill == join(wrap); (c): never fewer lines than paragraphs
     if mask & M_C09 != 0 {
-        if let Some(f) = cx.guard(|| fill(text, &o)) {
+        if let Some(f) = cx.guard(|| cfg.fill(text, &o)) {
             let j = lines.join(les);
             cx.check("C09-fill-eq-join", f == j, &d, &|| json!({"fill": f, "join(wrap)": j}));
         }
@@ -327,7 +327,7 @@ pub fn check_wrap(text: &str, cfg: &Cfg, mask: u32, cx: &mut Cx) {
     // judged as well: identical to wrap's lines (then the clauses below judge them), or else
     // in-order slices by the global matcher.
     if mask & M_C01 != 0 && cfg.width.saturating_add(1) >= text.len() {
-        if let Some(f) = cx.guard(|| fill(text, &o)) {
+        if let Some(f) = cx.guard(|| cfg.fill(text, &o)) {
             if f == lines.join(les) {
                 cx.pass("C01-fill-lines-are-slices");
             } else {
